@@ -44,10 +44,12 @@ class InstrOps:
                 raise Unsupported("path_tid through " + d["kind"])
         return tid
 
-    def load(self, ptr, guard, pos=None, fr=None, what="load"):
+    def load(self, ptr, guard, pos=None, fr=None, what="load", tid=None):
         """load through guarded pointer; nil alternatives become panic obligations. returns (value, ok_guard)"""
         if not isinstance(ptr, Ptr):
             raise Unsupported("load through non-pointer %r" % (ptr,))
+        if not ptr.alts:
+            return (self.zero(tid) if tid else None), False
         val = None
         first = True
         nilg = False
@@ -68,6 +70,8 @@ class InstrOps:
                 self.path_kills += 1
                 self.oblige("panic", "nil pointer dereference (%s)" % what, pg, False, pos, fr.fn["name"] if fr else None)
                 guard = b_and(guard, b_not(nilg))
+        if first and tid is not None:
+            val = self.zero(tid)
         return val, guard
 
     def read_cell(self, o, path, guard):
@@ -119,6 +123,11 @@ class InstrOps:
             if not getattr(e, "located", False):
                 e.args = ("%s [at %s in %s: %s]" % (e.args[0], ins.get("pos"), fr.fn["name"], op),)
                 e.located = True
+            raise
+        except Exception as e:
+            if not getattr(e, "located", False):
+                e.located = True
+                e.args = (("%s [at %s in %s: %s %s] stack=%s" % (e.args[0] if e.args else "", ins.get("pos"), fr.fn["name"], op, ins.get("reg"), " > ".join(x.split("/")[-1] for x in self.call_stack[-5:]))),)
             raise
         if "reg" in ins:
             env[ins["reg"]] = r
@@ -228,7 +237,7 @@ class InstrOps:
         o = ins["o"]
         x = self.val(env, ins["x"])
         if o == "*":
-            v, g = self.load(x, guard, ins.get("pos"), fr)
+            v, g = self.load(x, guard, ins.get("pos"), fr, "load", ins["type"])
             state["guard"] = g
             return v
         if o == "!":
@@ -308,16 +317,19 @@ class InstrOps:
             if r is None:
                 alts.append((g, None))
                 continue
+            arr = self.get_path(self.heap[r.obj].val, r.path)
+            n = len(arr.elems)
             if isinstance(idx, int):
-                alts.append((g, Ref(r.obj, r.path + (idx,))))
+                if 0 <= idx < n:
+                    alts.append((g, Ref(r.obj, r.path + (idx,))))
             else:
-                arr = self.get_path(self.heap[r.obj].val, r.path)
-                n = len(arr.elems)
                 for j in range(n):
                     c = int_cmp("==", idx, j, 64, True)
                     gg = b_and(g, c)
                     if gg is not False:
                         alts.append((gg, Ref(r.obj, r.path + (j,))))
+        if not alts:
+            return Ptr([])  # dead pointer: only on paths already ended by the bounds obligation
         return Ptr(self._merge_alts(alts))
 
     def i_Index(self, fr, env, ins, guard, state):
@@ -945,9 +957,20 @@ class InstrOps:
 
     def i_Go(self, fr, env, ins, guard, state):
         h = getattr(self, "spawn_hook", None)
+        args = [self.val(env, a) for a in ins["args"]]
+        if h is None and self.opts.get("go_inline"):
+            # sequential over-simplification (stated per check): the goroutine body runs to completion at the go statement
+            self.note("assumption", "go statements run inline (sequentially) at the spawn point")
+            fnop = ins["fn"]
+            if "invoke" in ins:
+                self.invoke(fr, self.val(env, ins["recv"]), ins["invoke"], args, guard, ins.get("pos"), ins)
+            elif "static" in ins and fnop["k"] == "func":
+                self.call_function(ins["static"], args, guard, (), ins.get("pos"))
+            else:
+                self.call_funcv(fr, self.val(env, fnop), args, guard, ins.get("pos"), ins)
+            return None
         if h is None:
             raise Unsupported("go statement outside concurrent mode")
-        args = [self.val(env, a) for a in ins["args"]]
         if "invoke" in ins:
             raise Unsupported("go invoke")
         fnop = ins["fn"]
